@@ -5,7 +5,9 @@ stdin : {"repo": path of the mdtraj tree the shim must #include, "tmp": scratch 
          "tables": [ {"n":int, "chain":[int], "missing":[bitmask], "frames":[{"hb":[[acc,..]..], "turn":[deg..]}]} ],
          "bridge_probe": [ {"n":..,"chain":..,"hb":..,"i":..,"j":..} ],
          "e2e": [ {"file": name in tests/data, "frame": int, "n_frames": int, "noise": float, "seed": int,
-                   "delete": [[residue_index, atom_name], ...], "keep_residues": [lo, hi] | null} ]}
+                   "delete": [[residue_index, atom_name], ...], "keep_residues": [lo, hi] | null,
+                   "history": optional [ {"op":"call"} | {"op":"rename_atom","res":i,"old":s,"new":s} |
+                                          {"op":"rename_residue","res":i,"name":s} ]  executed on ONE object } ]}
 stdout: last line JSON {"tables": [[str per frame]], "bridge_probe":[int], "e2e":[{...}]}
 
 Synthetic H-bond tables go through the shim (mdtraj's dssp() with kabsch_sander replaced, see the
@@ -183,28 +185,49 @@ def run_e2e(cases, repo):
                 scale = c["noise"] * (f + 1) / F if c.get("ramp") else c["noise"]
             big[f + 1] = t0.xyz[0] + rng.normal(0.0, 1.0, size=(n_atoms, 3)).astype(np.float32) * scale
         traj = md.Trajectory(big[1:], t0.topology)
-        full = md.compute_dssp(traj, simplified=False)
-        simp = md.compute_dssp(traj, simplified=True)
-        ks = md.kabsch_sander(traj)
         top = traj.topology
-        n = top.n_residues
-        names = [[a.name for a in r.atoms] for r in top.residues]
-        skip = [int(not all(x in nm for x in ("N", "CA", "C", "O"))) for nm in names]
-        chain = [r.chain.index for r in top.residues]
-        ca_idx = [next((a.index for a in r.atoms if a.name == "CA"), None) for r in top.residues]
-        frames = []
-        for f in range(F):
-            m = ks[f].tocoo()
-            hb = [[] for _ in range(n)]
-            for acc, don in zip(m.row.tolist(), m.col.tolist()):
-                hb[don].append(acc)
-            xyz = np.asarray(traj.xyz[f], dtype=np.float64)
-            ca = np.array([xyz[i] if i is not None else [np.nan] * 3 for i in ca_idx])
-            geom = kappa_flags(ca, [i is not None for i in ca_idx])
-            frames.append({"hb": hb, "geom": geom, "full": [str(x) for x in full[f]],
-                           "simp": [str(x) for x in simp[f]]})
-        res.append({"n": n, "skip": skip, "chain": chain, "frames": frames,
-                    "shape_full": list(full.shape), "shape_simp": list(simp.shape)})
+
+        def observe():
+            """mdtraj's answers for the object as it is now + the facts recomputed independently from the current names"""
+            full = md.compute_dssp(traj, simplified=False)
+            simp = md.compute_dssp(traj, simplified=True)
+            ks = md.kabsch_sander(traj)
+            n = top.n_residues
+            names = [[a.name for a in r.atoms] for r in top.residues]
+            skip = [int(not all(x in nm for x in ("N", "CA", "C", "O"))) for nm in names]
+            chain = [r.chain.index for r in top.residues]
+            ca_idx = [next((a.index for a in r.atoms if a.name == "CA"), None) for r in top.residues]
+            frames = []
+            for f in range(F):
+                m = ks[f].tocoo()
+                hb = [[] for _ in range(n)]
+                for acc, don in zip(m.row.tolist(), m.col.tolist()):
+                    hb[don].append(acc)
+                xyz = np.asarray(traj.xyz[f], dtype=np.float64)
+                ca = np.array([xyz[i] if i is not None else [np.nan] * 3 for i in ca_idx])
+                geom = kappa_flags(ca, [i is not None for i in ca_idx])
+                frames.append({"hb": hb, "geom": geom, "full": [str(x) for x in full[f]],
+                               "simp": [str(x) for x in simp[f]]})
+            return {"n": n, "skip": skip, "chain": chain, "frames": frames,
+                    "shape_full": list(full.shape), "shape_simp": list(simp.shape)}
+
+        if c.get("history"):
+            # calls interleaved with in-place renames on ONE Trajectory/Topology object
+            snaps = []
+            for st in c["history"]:
+                if st["op"] == "call":
+                    snaps.append(observe())
+                elif st["op"] == "rename_atom":
+                    r = top.residue(st["res"])
+                    for a in r.atoms:
+                        if a.name == st["old"]:
+                            a.name = st["new"]
+                            break
+                elif st["op"] == "rename_residue":
+                    top.residue(st["res"]).name = st["name"]
+            res.append({"snapshots": snaps})
+        else:
+            res.append(observe())
     return res
 
 
